@@ -174,13 +174,38 @@ def map_call(ctx, i):
             o = core.execute(core.with_async(spec, False), inputs, "sync", processors=[Rec("p")], **k2)
             if n > 0:
                 check_stream(ctx, o, spec, "p", "sync-map", case)
-            elif rt.events_of(o.rec, "p"):
-                ctx.violation("C12:empty-map-emitted", "runner.map over an empty list delivered events", case)
+            else:
+                empty_map(ctx, o, "sync-map", case)
             for mc in (None, 2):
                 o = core.execute(core.with_async(spec, True, rng), inputs, "async", sched=rt.Sched(default="rand", rng=rng), max_concurrency=mc, processors=[ARec("p", rng, 2)], **k2)
                 if n > 0:
                     check_stream(ctx, o, spec, "p", f"async-map-k{mc}", case)
+                else:
+                    empty_map(ctx, o, f"async-map-k{mc}", case)
+    # a map() call that cannot run (a required input is missing, errors are raised): rejected, nothing delivered
+    others = [k for k in inputs if k != over]
+    if n > 0 and others:
+        k = rng.choice(sorted(others))
+        less = {a: b for a, b in inputs.items() if a != k}
+        for runner in ("sync", "async"):
+            o = core.execute(core.with_async(spec, runner == "async", rng), less, runner, processors=[(Rec if runner == "sync" else ARec)("p")], map_over=over, error_handling="raise")
+            if o.exc is not None and type(o.exc).__name__ == "MissingInputError":
+                ctx.obs["rejected_calls"] += 1
+                evs = rt.events_of(o.rec, "p")
+                shut = sum(1 for e in o.rec.ev if e[0] == "shutdown" and e[1] == "p")
+                if evs or shut:
+                    ctx.violation("C12:rejected-call-emitted", f"{runner}-map: rejected map() call (MissingInputError for {k}) delivered {len(evs)} events ({[type(e).__name__ for e in evs][:4]}) and {shut} shutdowns", {**case, "omitted": k})
     ctx.case({"map": gen.shape_of(spec), "n": n}, n > 0)
+
+
+def empty_map(ctx, o, label, case):
+    """map() over nothing: no run happened, so no events; the call ended, so exactly one shutdown."""
+    ctx.obs["empty_maps_checked"] += 1
+    if rt.events_of(o.rec, "p"):
+        ctx.violation("C12:empty-map-emitted", f"{label}: runner.map over an empty list delivered events", case)
+    shut = sum(1 for e in o.rec.ev if e[0] == "shutdown" and e[1] == "p")
+    if shut != 1:
+        ctx.violation("C12:shutdown-count", f"{label}: runner.map over an empty list: shutdown invoked {shut} times for one top-level call", case)
 
 
 def run(ctx):
